@@ -42,6 +42,8 @@ type c16Cfg struct {
 	// the only places a concurrent Close can land (a command holds the Client's mutex for its whole round trip), so
 	// calling it from there is the linearisation of that schedule.
 	CloseAt int `json:"closeat,omitempty"`
+	// User: 0 an ordinary user name, 1 the EMPTY user name, 2 a one-character user name (the secret is unchanged)
+	User int `json:"user,omitempty"`
 }
 
 // togglingAuth wraps a mechanism and switches the client's debug log on at a given step of the exchange.
@@ -86,7 +88,7 @@ var c16Creds = []string{
 	"Pq%sw0rd%d-100%-Zk", // format verbs
 }
 
-const c16User = "user@example.test"
+const c16DefaultUser = "user@example.test"
 
 type capLogger struct {
 	mu   sync.Mutex
@@ -99,7 +101,7 @@ func (c *capLogger) Infof(l log.Log)  { c.add(l) }
 func (c *capLogger) Warnf(l log.Log)  { c.add(l) }
 func (c *capLogger) Errorf(l log.Log) { c.add(l) }
 
-func c16Needles(mech int, secret string) map[string]string {
+func c16Needles(mech int, secret, c16User string) map[string]string {
 	b64 := base64.StdEncoding.EncodeToString
 	n := map[string]string{
 		"the raw secret":          secret,
@@ -130,6 +132,7 @@ func c16Exec(r *vf.Run, cfg c16Cfg, c *vf.Chooser) (keys, whats []string, contro
 	add := func(k, w string) { keys = append(keys, k); whats = append(whats, w) }
 	mech := c16Mechs[cfg.Mech]
 	secret := c16Creds[cfg.Cred]
+	c16User := []string{c16DefaultUser, "", "u"}[cfg.User]
 	useTLS := strings.HasSuffix(mech, "-PLUS")
 	caps := []string{"AUTH " + strings.Join(c16Mechs, " "), "8BITMIME"}
 	if useTLS {
@@ -365,7 +368,7 @@ func c16Exec(r *vf.Run, cfg c16Cfg, c *vf.Chooser) (keys, whats []string, contro
 	sentSecret := false
 	for _, e := range sess.Transcript {
 		if e.Verb == "AUTH" || e.Verb == "AUTHRESP" {
-			for _, nd := range c16Needles(cfg.Mech, secret) {
+			for _, nd := range c16Needles(cfg.Mech, secret, c16User) {
 				if nd != "" && strings.Contains(e.Line, nd) {
 					sentSecret = true
 				}
@@ -373,7 +376,7 @@ func c16Exec(r *vf.Run, cfg c16Cfg, c *vf.Chooser) (keys, whats []string, contro
 		}
 	}
 	leaks := []string{}
-	for name, nd := range c16Needles(cfg.Mech, secret) {
+	for name, nd := range c16Needles(cfg.Mech, secret, c16User) {
 		if nd != "" && strings.Contains(all, nd) {
 			leaks = append(leaks, name)
 		}
@@ -414,7 +417,7 @@ func init() {
 	vf.Register(&vf.Check{
 		ID: "C16", Title: "authentication secrets never reach the debug log",
 		Run: func(r *vf.Run) {
-			r.SetRule("mechanism {PLAIN, LOGIN, CRAM-MD5, XOAUTH2, SCRAM-SHA-1, SCRAM-SHA-256, SCRAM-SHA-256-PLUS over real TLS} × 5 marker credentials (base64 padding 0/1/2, '='/',', Unicode, '%' format verbs) × logger {custom capturing, log.New, log.NewJSON} × {debug only, debug+WithLogAuthData as scanner control} × entry {mail.Client dial+send (configured by options, or constructed with auth-data logging on and then configured through SetLogger / SetDebugLog / SetLogAuthData(false)), smtp.Client Auth then NOOP, smtp.Client Auth, Auth again, then NOOP; each smtp.Client entry with and without a preceding Hello call; debug logging off at the start of Auth and switched on inside the mechanism's Start / first Next / second Next; the smtp.Client closed by another party (Close or Quit) inside the mechanism's Start / first Next / second Next} × every server script over {conforming, 535, non-base64 challenge, extra challenge, empty challenge, drop, transport write failure on the next client line} at every AUTH step and at the EHLO that precedes AUTH {ok, write failure afterwards, 502 with HELO fallback} up to the deviation bound; the log (format, arguments, formatted line, raw output, decoded JSON msg) is scanned for the secret, its base64/hex/url-base64 forms and the exact SASL response; distinct by (configuration, script)")
+			r.SetRule("mechanism {PLAIN, LOGIN, CRAM-MD5, XOAUTH2, SCRAM-SHA-1, SCRAM-SHA-256, SCRAM-SHA-256-PLUS over real TLS} × user name {ordinary, empty, one character} × 5 marker credentials (base64 padding 0/1/2, '='/',', Unicode, '%' format verbs) × logger {custom capturing, log.New, log.NewJSON} × {debug only, debug+WithLogAuthData as scanner control} × entry {mail.Client dial+send (configured by options, or constructed with auth-data logging on and then configured through SetLogger / SetDebugLog / SetLogAuthData(false)), smtp.Client Auth then NOOP, smtp.Client Auth, Auth again, then NOOP; each smtp.Client entry with and without a preceding Hello call; debug logging off at the start of Auth and switched on inside the mechanism's Start / first Next / second Next; the smtp.Client closed by another party (Close or Quit) inside the mechanism's Start / first Next / second Next} × every server script over {conforming, 535, non-base64 challenge, extra challenge, empty challenge, drop, transport write failure on the next client line} at every AUTH step and at the EHLO that precedes AUTH {ok, write failure afterwards, 502 with HELO fallback} up to the deviation bound; the log (format, arguments, formatted line, raw output, decoded JSON msg) is scanned for the secret, its base64/hex/url-base64 forms and the exact SASL response; distinct by (configuration, script)")
 			r.Assume("user names are not secrets", "a server that echoes credentials in its own reply text is outside the alphabet")
 			bound := 3
 			if r.Thorough {
@@ -434,6 +437,12 @@ func init() {
 									continue // quick: the scanner control runs once per mechanism × logger
 								}
 								cfgs = append(cfgs, c16Cfg{Mech: m, Cred: cr, Logger: lg, LogAuth: la, SMTP: sm})
+								if !la && cr < 2 {
+									// the empty and the one-character user name
+									for u := 1; u <= 2; u++ {
+										cfgs = append(cfgs, c16Cfg{Mech: m, Cred: cr, Logger: lg, SMTP: sm, User: u})
+									}
+								}
 								if !sm && !la {
 									cfgs = append(cfgs, c16Cfg{Mech: m, Cred: cr, Logger: lg, Setters: true})
 								}
